@@ -49,6 +49,13 @@ RULE = ("P: all dictionaries with 1..2 (thorough 3) entries over the value alpha
         "and SimulationResults targets {json, pickle, save_to_file .json/.pickle/no extension with a template "
         "over all parameter names}; R: all four result types x all update histories <= 3 (quick 2) x accumulate "
         "x {json, pickle}, and the same inside SimulationResults x runned_reps x current_rep x all targets; N: "
+        "B: SimulationResults bookkeeping grid - runned_reps in {None,0,[],[0],[0,0],int64(0),7,[2,5]} x current_rep in "
+        "{-1,0,4} x original_filename in {None,'',template} x results {none, zero updates, one update, all-zero values} x "
+        "parameters {none, one, child with unpack_index 0, unpacked of length 1 / 0} x {json, pickle, to_dict/from_dict, "
+        ".json/.pickle/extension-less file}; E: error paths (malformed / truncated JSON and pickle must raise and leave "
+        "the directory untouched, unknown extension, failing save must leave the file under the final name intact, "
+        "unwritable destinations); alternative entry points (to_dict/from_dict, load_from_file on the '.pickle'-less "
+        "name, save_to/load_from_pickled_file, get_filename_with_replaced_params); "
         "file-name determinism and pairwise injectivity over the scalar alphabet (incl. tiny floats, large floats a "
         "fine step / one ulp apart, ints beyond 2^53, narrow floats). Non-trivial = the object holds "
         "a value JSON has no native form for (numpy scalar/array, set), an unpack mark, or a result with >= 1 "
@@ -527,10 +534,22 @@ def roundtrip(c, obj, target, case, T, template=None):
         if not (l2 == l1):
             c.fail((tg, "second_trip_eq_false", kind), case, observed=False, expected=True)
         if tg == "json":
-            r3 = save_then_load(c, l2, target, T, template, case, tg, ("third_trip",))
-            if r3 is None:
+            # third save (no load needed): the text must have reached its fixed point
+            h3 = None
+            with c.guard(("third_trip", tg, "save"), case):
+                try:
+                    h3 = do_save(c, l2, target, T, template, case)
+                except OSError:
+                    if os.path.isdir(T.dir):
+                        raise
+                    c.count("retries_scratch_dir_removed_by_someone_else")
+                    os.makedirs(T.dir, exist_ok=True)
+                    return
+                if "dir" in h3:
+                    shutil.rmtree(h3["dir"], ignore_errors=True)
+            if h3 is None:
                 return
-            t2, t3 = h2["text"], r3[1]["text"]
+            t2, t3 = h2["text"], h3["text"]
             dj = diff(norm_json(t2), norm_json(t3))
             if dj is not None:
                 c.fail((tg, "text_not_stable_on_second_trip", kind), case, observed=dj[2])
@@ -642,8 +661,10 @@ def params_targets(n, which, nsub):
     alt = "SR:file_json" if (which if which >= 0 else nsub) % 2 == 0 else "SR:file_pickle"
     if n <= 2:
         if which < 0:
-            return ["json", "pickle", "dict", "SR:json", "SR:pickle", "SR:dict", "params_pickle_file",
-                    "SR:file_json", "SR:file_pickle", "SR:file_noext"]
+            # (the JSON / pickle STRING of the wrapping SimulationResults is what SR:file_json /
+            # SR:file_pickle write, so it is not taken separately; part R / B do take it)
+            return ["json", "pickle", "dict", "SR:dict", "params_pickle_file", "SR:file_json",
+                    "SR:file_pickle" if nsub % 2 else "SR:file_noext"]
         return ["json", "pickle", alt]
     if which < 0:
         return ["json", "pickle", alt]
